@@ -6,6 +6,7 @@ from .ipmfile import *
 from .c01 import GENERIC, GENERIC_DEC
 
 PROPERTY = 'C06'
+PYTHON_O = ['rt1/latin_1/vbs', 'rt1/cp500/1014']      # obligations that are also explored with the modules compiled as under python -O
 ASSUMPTIONS = [
     'messages come from the C01 families (shapes %s), lengths / numeric values / content symbolic; 1..3 records per file' % SHAPES,
     '"hundreds of records / many blocks" is not re-run here: it follows from the per-step arguments of C03-C05 (any record list, any write and read sequence)',
@@ -20,7 +21,7 @@ def _funcs():
             m.VbsReader.__next__, m.Block1014.write, m.Unblock1014.read, i.dumps, i.loads]
 
 
-def roundtrip(nrec, enc, blocked, cfgs=None, shapes=None, maxvar1=-1, maxrec=False):
+def roundtrip(nrec, enc, blocked, cfgs=None, shapes=None, maxvar1=-1, maxrec=False, many=None):
     def h():
         core.FUEL.set(30)
         m = M().mciipm
@@ -35,7 +36,8 @@ def roundtrip(nrec, enc, blocked, cfgs=None, shapes=None, maxvar1=-1, maxrec=Fal
             recs.append((msg, elems))
 
         def rp():
-            return {'kind': 'roundtrip', 'args': {'msgs': [msg_witness(mm, ee, ev) for mm, ee in recs], 'enc': enc, 'blocked': blocked, 'cfg': cfgs or 'packaged'}}
+            return {'kind': 'roundtrip', 'args': {'msgs': [msg_witness(mm, ee, ev) for mm, ee in recs], 'enc': enc, 'blocked': blocked, 'cfg': cfgs or 'packaged',
+                                                 'many': many}}
         core.set_fallback(rp, 'C06/concretised')
         if maxrec:
             # messages up to the configured maximum record length (larger ones cannot be read back by design)
@@ -43,8 +45,13 @@ def roundtrip(nrec, enc, blocked, cfgs=None, shapes=None, maxvar1=-1, maxrec=Fal
                 assume(rlen(M().iso8583.dumps(dict(msg), encoding=enc, iso_config=cfgs)) <= 6000)
         with guard('IpmWriter', 'C06/write-exception', rp):
             w = m.IpmWriter(f, encoding=enc, blocked=blocked, iso_config=cfgs)
-            for msg, _ in recs:
-                w.write(dict(msg))
+            if many == 'list':
+                w.write_many([dict(msg) for msg, _ in recs])
+            elif many == 'generator':
+                w.write_many(dict(msg) for msg, _ in recs)
+            else:
+                for msg, _ in recs:
+                    w.write(dict(msg))
             w.close()
         got = []
         with guard('IpmReader', 'C06/read-exception', rp):
@@ -190,6 +197,10 @@ def obligations(tier):
                               'two messages, any two shapes, variable lengths up to 400', _funcs))
     obs.append(Ob('rt1/custom-config/cp500/1014', roundtrip(1, 'cp500', True, cfgs=GENERIC['g-var']), 300, 'caller-supplied configuration g-var', _funcs))
     obs.append(Ob('rt2/custom-config-decimal/cp500/1014', roundtrip(2, 'cp500', True, cfgs=GENERIC_DEC), 300, 'caller-supplied configuration with decimal fields (values from a concrete family incl. zero)', _funcs))
+    obs.append(Ob('rt2/custom-config/write_many-list/cp037/1014', roundtrip(2, 'cp037', True, cfgs=GENERIC['g-typed'], many='list'), 300,
+                  'caller-supplied configuration g-typed, the records handed over with write_many(list)', _funcs))
+    obs.append(Ob('rt2/custom-config/write_many-generator/latin_1/vbs', roundtrip(2, 'latin_1', False, cfgs=GENERIC['g-var'], many='generator'), 300,
+                  'caller-supplied configuration g-var, the records handed over with write_many(generator)', _funcs))
     obs.append(Ob('rt2/custom-config/latin_1/vbs', roundtrip(2, 'latin_1', False, cfgs=GENERIC['g-typed']), 300, 'caller-supplied configuration g-typed', _funcs))
     if not q:
         obs.append(Ob('rt3/cp500/1014', roundtrip(3, 'cp500', True, shapes=SHAPES[:3]), 1800, 'three messages', _funcs))
